@@ -258,17 +258,31 @@ def check(ctx):
     fr = POP[2][0][1]
     while fr[0] == "call" and fr[1][0] == "attr" and fr[1][2] == "reset_index":
         fr = fr[1][1]
-    okq = fr[0] == "call" and fr[1][0] == "attr" and fr[1][2] == "query" and fr[2] and fr[2][0][0] == "const"
-    qs = fr[2][0][1] if okq else ""
-    mq = re.fullmatch(r"\s*percent\s*>\s*@(\w+)\s*", qs) if okq else None
+    # the filter: rows of the table whose cumulative weight `percent` strictly exceeds the level (query string and boolean mask are the
+    # same term in the def-use form)
+    qname = None
+    qs = ir.show(fr, maxdepth=4)
+    if fr[0] == "sub" and fr[2][0] == "cmp":
+        c_ = fr[2]
+        colt = c_[2]
+        is_pct = colt in (("attr", fr[1], "percent"), ("sub", fr[1], ("const", "percent")))
+        qterm = c_[3]
+        if is_pct and c_[1] == ">":
+            qname = qterm[1] if qterm[0] == "param" else "<inlined>"
+        qs = ir.show(c_, maxdepth=4)
+    mq = qname is not None
     ctx.ob("C04.R3.strict", f"{f.qualname}|filter cumulative weight > q (strict)", bool(mq), f.where(),
            "rows are kept where the cumulative weight strictly exceeds the quantile level" if mq
-           else f"filter is {qs!r}: the documented rule is the strict 'percent > q'")
+           else f"filter is {qs}: the documented rule is the strict 'percent > q'")
     if not mq:
         return
     pc_fn = cls.lookup("_compute_population_correction")
-    qparam_ok = mq.group(1) in pc_fn.params
+    qparam_ok = qname in pc_fn.params
     arg_ok = False
+    if qname == "<inlined>":
+        # the helper was inlined: the level is already the caller's expression
+        nz0 = symexpr.Normalizer(leaf=lambda x: "ncal" if x == ncal else (x[1] if x[0] == "param" else None))
+        arg_ok = nz0.norm(qterm) == symexpr.Normalizer().norm(symexpr.parse("alpha * (1 + 1 / ncal)"))
     if qparam_ok:
         # summarise again without inlining the helper: the argument bound to that parameter must be the level of R2
         b2 = ctx.builder(inline=lambda c, call, callee: callee.name in ("get_unit_prediction_interval_bounds", "_compute_conf_frac"))
@@ -276,7 +290,7 @@ def check(ctx):
         calls2 = [x for _, _, t_, _ in s2.assigns for x in ir.walk(t_) if x[0] == "call" and x[1] == ("attr", SELF, "_compute_population_correction")]
         if calls2:
             bound = ir.bind_args(pc_fn, calls2[0][2], calls2[0][3], method=True) or {}
-            a = bound.get(mq.group(1))
+            a = bound.get(qname)
             want_q = symexpr.Normalizer().norm(symexpr.parse("alpha * (1 + 1 / ncal)"))
             if a is not None:
                 r2 = s2.ret()
@@ -285,7 +299,7 @@ def check(ctx):
                 arg_ok = nz.norm(a) == want_q
     ctx.ob("C04.R3.level", f"{f.qualname}|weighted correction uses the same quantile level", arg_ok, f.where(),
            "the weighted correction is computed at the same level alpha(1 + 1/n_cal)" if arg_ok else "the weighted correction is computed at a different level")
-    tbl = fr[1][1]
+    tbl = fr[1]
     base = tbl
     pct = None
     while base[0] == "setitem":
